@@ -516,7 +516,9 @@ def reduce(ctx):
                 ctx.check(isinstance(e, ast.Constant), e, "slot %s <- constant %s" % (p, unparse(e)))
     off = [a for a in nodes_of_type(f, ast.Assign) if "offset" in stores_to(a)]
     offa = [a for a in nodes_of_type(f, ast.AugAssign) if dotted(a.target) == "offset"]
-    ctx.check(bool(off) and unparse(off[0].value) == "a_start - m_start" and bool(offa) and unparse(offa[0].value) == "m.offset" and isinstance(offa[0].op, ast.Add), off[0] if off else f, "offset = (start of a - start of m) + m.offset")
+    two_steps = bool(off) and unparse(off[0].value) == "a_start - m_start" and bool(offa) and unparse(offa[0].value) == "m.offset" and isinstance(offa[0].op, ast.Add)
+    one_step = len(off) == 1 and not offa and unparse(off[0].value) in ("a_start - m_start + m.offset", "m.offset + (a_start - m_start)", "m.offset + a_start - m_start", "a_start + m.offset - m_start")
+    ctx.check(two_steps or one_step, off[0] if off else f, "offset = (start of a - start of m) + m.offset")
     # _strided_from_memmap forwards to make_memmap
     for c in calls_in(tgt):
         if call_name(c) == "make_memmap":
